@@ -368,12 +368,13 @@ def enumerate_instances(cls, table, rng, mode, thorough=False):
     pcrel = bool(labs) and not ints and row is not None and row["kind"] == "s" and row["align"] == 2
     out = []
 
-    def add(vals, tag, sym=None):
+    def add(vals, tag, sym=None, swept=None):
         place = PLACE
         if labs:
             if sym is None:
                 sym = PLACE + (next((v["v"] for v in inside if v["label"] == "a"), 0) if pcrel else 0x800)
-        out.append({"values": dict(vals), "sym": sym if labs else 0, "place": place if labs else 0, "tag": tag})
+        out.append({"values": dict(vals), "sym": sym if labs else 0, "place": place if labs else 0, "tag": tag,
+                    "swept": swept})
 
     for same in (False, True):
         base = _defaults(sl, same)
@@ -385,7 +386,7 @@ def enumerate_instances(cls, table, rng, mode, thorough=False):
                 for v in (vals_row if mode == "boundary" else inside):
                     x = dict(base)
                     x[n] = v["v"]
-                    add(x, "%s:%s:%s:m4=%d" % (n, "in" if v["inside"] else "out", v["label"], v["v"] % 4))
+                    add(x, "%s:%s:%s:m4=%d" % (n, v["cat"], v["label"], v["v"] % 4))
                 if thorough and row and row["kind"] != "n":
                     lo = -(1 << (row["bits"] - 1)) if row["kind"] in "sp" else 0
                     hi = (1 << (row["bits"] - 1)) if row["kind"] == "s" else (1 << row["bits"])
@@ -399,7 +400,7 @@ def enumerate_instances(cls, table, rng, mode, thorough=False):
             for n in labs:
                 if pcrel:
                     for v in (vals_row if mode == "boundary" else inside):
-                        add(base, "%s:%s:%s" % (n, "in" if v["inside"] else "out", v["label"]), sym=PLACE + v["v"])
+                        add(base, "%s:%s:%s" % (n, v["cat"], v["label"]), sym=PLACE + v["v"])
                 else:
                     for a in ADDRESSES:
                         add(base, "%s:addr:%s" % (n, "odd" if a % 2 else "even"), sym=a)
@@ -416,13 +417,13 @@ def enumerate_instances(cls, table, rng, mode, thorough=False):
         for r in range(32):
             x = dict(base)
             x[n] = xreg(r)
-            add(x, "%s:sweep" % n)
+            add(x, "%s:sweep" % n, swept=r)
     if len(regs) > 1:
         for r in range(32):
             x = dict(base)
             for n in regs:
                 x[n] = xreg(r)
-            add(x, "diag")
+            add(x, "diag", swept=r)
     if not regs and not ints and not labs and not csrs:
         add(base, "plain")
     if thorough:
@@ -432,7 +433,8 @@ def enumerate_instances(cls, table, rng, mode, thorough=False):
                 x[n] = xreg(rng.randrange(32))
             if ints and inside:
                 x[ints[0]] = rng.choice(inside)["v"]
-            add(x, "random")
+            nums = {x[n].num for n in regs}
+            add(x, "random:%s%s" % ("eq" if len(nums) <= 1 else "ne", ":m4=%d" % (x[ints[0]] % 4) if ints else ""))
     return out
 
 
@@ -464,7 +466,7 @@ def enc_records(prop, which, table, rng, mode, rig, thorough=False, paths=("enc"
             if sig in seen:
                 continue
             seen.add(sig)
-            issweep = inst["tag"].endswith("sweep") or inst["tag"] in ("diag", "random")
+            issweep = inst["tag"].endswith("sweep") or inst["tag"] == "diag" or inst["tag"].startswith("random")
             for path in (sweep_paths if issweep and sweep_paths is not None else paths):
                 if path == "enc":
                     out = observe_encode(ins, sym if haslab else None, place)
@@ -683,10 +685,8 @@ def rw_records(prop, which, table, rng, thorough=False, kind="rw"):
         seen = set()
         k = 0
         for inst in enumerate_instances(cls, table, rng, "valid", thorough):
-            if not thorough and inst["tag"].endswith("sweep") or inst["tag"] == "diag":
-                regs = [v.num for v in inst["values"].values() if hasattr(v, "num")]
-                if not thorough and any(r not in QUICK_REGS for r in regs):
-                    continue
+            if not thorough and inst["swept"] is not None and inst["swept"] not in QUICK_REGS:
+                continue
             try:
                 ins = build(cls, inst["values"])
                 text = str(ins)
@@ -739,3 +739,141 @@ def rw_records(prop, which, table, rng, thorough=False, kind="rw"):
 def pseudo_records(prop, which, table, rng, thorough=False):
     """Records (t = 'pseudo'): printed text of every macro-instruction instance + its rendering."""
     return rw_records(prop, which, table, rng, thorough, kind="pseudo")
+
+
+# ---------------------------------------------------------------- C10: relocations of other targets (Reloc.tla)
+# (march, Reloc.tla arch name, assembly line using LABEL, rough displacement width used only to pick inputs)
+RELOC_SITES = [
+    ("x86_64", "x86_64", "jmp " + LABEL, 32), ("x86_64", "x86_64", "call " + LABEL, 32), ("x86_64", "x86_64", "jz " + LABEL, 32),
+    ("x86_64", "x86_64", "jmpshort " + LABEL, 8), ("x86_64", "x86_64", "mov rax, " + LABEL, 64),
+    ("arm", "arm", "b " + LABEL, 26), ("arm", "arm", "bl " + LABEL, 26), ("arm", "arm", "beq " + LABEL, 26),
+    ("arm", "arm", "ldr r0, " + LABEL, 12), ("arm", "arm", "adr r0, " + LABEL, 12),
+    ("arm:thumb", "thumb", "b " + LABEL, 12), ("arm:thumb", "thumb", "bl " + LABEL, 25), ("arm:thumb", "thumb", "bw " + LABEL, 25),
+    ("arm:thumb", "thumb", "beq " + LABEL, 9), ("arm:thumb", "thumb", "beqw " + LABEL, 21),
+    ("arm:thumb", "thumb", "ldr r0, " + LABEL, 10),
+]
+
+
+def reloc_distances(width, thorough):
+    js = (-8, -6, -5, -4, -3, -2, -1, 0, 1, 2, 3, 4, 5, 6, 8)
+    ds = set(range(-8, 9)) | {12, 16, 100, -100, 1000, -1000}
+    if width < 64:
+        for base in (1 << (width - 1), 1 << width, (1 << (width - 1)) + (1 << (width - 2))):
+            for s in (1, -1):
+                for j in js:
+                    ds.add(s * base + j)
+    else:
+        ds |= {1 << 31, (1 << 32) + 4, (1 << 40) + 8}
+    if not thorough:
+        ds = {d for d in ds if d % 2 == 0 or abs(d) < 4 or width <= 12}
+    return sorted(ds)
+
+
+class RelocRig:
+    """Assembles one line referring to LABEL for any march, links it against a placed symbol."""
+
+    def __init__(self):
+        self.arch = {}
+
+    def get(self, march):
+        if march not in self.arch:
+            from ppci.api import get_arch
+            self.arch[march] = get_arch(march)
+        return self.arch[march]
+
+    def assemble(self, march, lines, section):
+        from ppci.binutils.objectfile import ObjectFile
+        from ppci.binutils.outstream import BinaryOutputStream
+        from ppci.common import DiagnosticsManager
+        arch = self.get(march)
+        obj = ObjectFile(arch)
+        ostream = BinaryOutputStream(obj)
+        ostream.select_section(section)
+        a = arch.assembler
+        a.prepare()
+        for ln in lines:
+            a.assemble(ln, ostream, DiagnosticsManager())
+        a.flush()
+        return obj
+
+    def site(self, march, text):
+        """(object, relocation entry, relocation class, field bytes before)"""
+        o1 = self.assemble(march, ["global " + LABEL, text], "code")
+        rels = [r for r in o1.relocations if r.section == "code"]
+        if len(rels) != 1:
+            raise ValueError("relocations=%d" % len(rels))
+        rel = rels[0]
+        rcls = o1.arch.isa.relocation_map[rel.reloc_type]
+        size = rcls.size()
+        before = bytes(o1.get_section("code").data[rel.offset:rel.offset + size])
+        return o1, rel, rcls, before
+
+    def link(self, march, text, place, sym):
+        """Real linker: code section at `place`, LABEL at `sym`.  Returns the record fields."""
+        from ppci.api import link
+        from ppci.binutils.layout import Layout
+        o1, rel, rcls, before = self.site(march, text)
+        size = len(before)
+        out = {"rt": rel.reloc_type, "P": place + rel.offset, "before": list(before), "after": list(before), "ok": False, "exc": "",
+               "addend": rel.addend}
+        try:
+            pad_s = sym % 4
+            o2 = self.assemble(march, ["global " + LABEL] + ["db 0"] * pad_s + [LABEL + ":", "db 0", "db 0", "db 0", "db 0"], "tgt")
+            lay = Layout.load(io.StringIO(
+                "MEMORY code LOCATION=0x%x SIZE=0x100 { SECTION(code) }\nMEMORY tgt LOCATION=0x%x SIZE=0x100 { SECTION(tgt) }\n"
+                % (place, sym - pad_s)))
+            o = link([o1, o2], lay)
+            sec = o.get_section("code")
+            if sec.address != place or o.get_section("tgt").address != sym - pad_s:
+                out["exc"] = "placement"
+                return out
+            out["after"] = list(bytes(sec.data[rel.offset:rel.offset + size]))
+            out["ok"] = True
+        except Exception as e:
+            out["exc"] = type(e).__name__
+        return out
+
+    def apply(self, march, text, place, sym):
+        """Relocation.apply of the instruction's own relocation, directly."""
+        o1, rel, rcls, before = self.site(march, text)
+        out = {"rt": rel.reloc_type, "P": place + rel.offset, "before": list(before), "after": list(before), "ok": False, "exc": "",
+               "addend": rel.addend}
+        try:
+            r = rcls(None, offset=rel.offset, addend=rel.addend)
+            after = r.apply(sym, bytearray(before), place + rel.offset)
+            out["after"] = list(bytes(after))
+            out["ok"] = True
+        except Exception as e:
+            out["exc"] = type(e).__name__
+        return out
+
+
+def reloc_records(prop, rng, thorough=False):
+    rig = RelocRig()
+    recs = []
+    skipped = []
+    for march, arch, text, width in RELOC_SITES:
+        place = 0x200000000 if width >= 32 else 0x10000000
+        try:
+            rig.site(march, text)
+        except Exception as e:
+            skipped.append("%s:%s:%s" % (march, text, type(e).__name__))
+            continue
+        for d in reloc_distances(width, thorough):
+            sym = place + d
+            if sym < 0:
+                continue
+            for path in ("link", "apply"):
+                if path == "link" and not thorough and abs(d) > 8 and d % 4 not in (0, 2):
+                    continue
+                try:
+                    o = (rig.link if path == "link" else rig.apply)(march, text, place, sym)
+                except Exception as e:
+                    skipped.append("%s:%s:%s" % (march, text, type(e).__name__))
+                    continue
+                o.update({"t": "rel", "arch": arch, "S": enc.limbs(sym, 8), "A": enc.limbs(o.pop("addend"), 8), "P": enc.limbs(o["P"], 8),
+                          "key": "%s:%s:reloc:%s:%s:%s:%s:m4=%d:d=%d" % (prop, arch, o["rt"], path, text,
+                                                                         "fwd" if d > 0 else "bwd" if d < 0 else "zero", d % 4, d),
+                          "text": text, "d": d})
+                recs.append(o)
+    return recs, skipped
